@@ -6,6 +6,7 @@ CONSTANTS
   K = 1
   MaxHist = 0
   HasErase = TRUE
+  Copies = TRUE
   Mutation = "none"
 POSTCONDITION TraceAccepted
 CHECK_DEADLOCK FALSE
